@@ -1,5 +1,7 @@
 import FxpVerif.Model.Heap
 import Mathlib.Tactic.Linarith
+import Mathlib.Tactic.Ring
+import Mathlib.Tactic.Push
 /-! # C20 — objects are independent and inputs are never mutated -/
 namespace Fxp.C20
 open Fxp
@@ -45,6 +47,27 @@ theorem inv_cells (h h' : Heap) (hi : Inv h) (ho : h'.objs = h.objs) (hn : h.nex
   obtain ⟨a, b, c⟩ := hi.1 x hx
   omega
 
+/-- a **view** (row, strided slice or column): a new object with fresh config and status cells on the buffer of a
+live object keeps the invariant. -/
+theorem inv_view (h : Heap) (hi : Inv h) (x : HObj) (hxm : x ∈ h.objs) (h' : Heap) (y : HObj)
+    (hn : h'.next = h.next + 2) (ho : h'.objs = h.objs ++ [y]) (hc : y.cfg = h.next) (hs : y.st = h.next + 1) (hb : y.buf = x.buf)
+    : Inv h' := by
+  unfold Inv
+  rw [ho, hn]
+  constructor
+  · intro z hz
+    rcases List.mem_append.mp hz with hz | hz
+    · obtain ⟨a1, b1, c1⟩ := hi.1 z hz; omega
+    · simp only [List.mem_singleton] at hz; subst hz
+      obtain ⟨_, _, c1⟩ := hi.1 x hxm
+      omega
+  · rw [List.pairwise_append]
+    refine ⟨hi.2, by simp, ?_⟩
+    intro z hz w hw
+    simp only [List.mem_singleton] at hw; subst hw
+    obtain ⟨a1, b1, _⟩ := hi.1 z hz
+    omega
+
 /-- the no-sharing invariant is preserved by every operation … -/
 theorem inv_step (h : Heap) (hi : Inv h) (s : HStep) : Inv (h.step s) := by
   cases s with
@@ -66,22 +89,19 @@ theorem inv_step (h : Heap) (hi : Inv h) (s : HStep) : Inv (h.step s) := by
     split
     · exact hi
     · rename_i x hx
-      have hxm : x ∈ h.objs := List.mem_of_find?_eq_some hx
-      unfold Inv
-      simp only
-      constructor
-      · intro y hy
-        rcases List.mem_append.mp hy with hy | hy
-        · obtain ⟨a1, b1, c1⟩ := hi.1 y hy; omega
-        · simp only [List.mem_singleton] at hy; subst hy
-          obtain ⟨_, _, c1⟩ := hi.1 x hxm
-          simp only; omega
-      · rw [List.pairwise_append]
-        refine ⟨hi.2, by simp, ?_⟩
-        intro y hy z hz
-        simp only [List.mem_singleton] at hz; subst hz
-        obtain ⟨a1, b1, _⟩ := hi.1 y hy
-        simp only; omega
+      exact inv_view h hi x (List.mem_of_find?_eq_some hx) _ _ rfl rfl rfl rfl rfl
+  | slice v a start step n =>
+    simp only [Heap.step]
+    split
+    · exact hi
+    · rename_i x hx
+      exact inv_view h hi x (List.mem_of_find?_eq_some hx) _ _ rfl rfl rfl rfl rfl
+  | column v a j =>
+    simp only [Heap.step]
+    split
+    · exact hi
+    · rename_i x hx
+      exact inv_view h hi x (List.mem_of_find?_eq_some hx) _ _ rfl rfl rfl rfl rfl
   | write a vs =>
     simp only [Heap.step]
     split
@@ -181,16 +201,52 @@ theorem writeWindow_get (buf : List ℤ) (off : ℕ) (c : ℤ) (hoff : off < buf
 /-- a view refers to its base's buffer: fresh config and status, **shared** buffer window. -/
 theorem index_shares_buffer (h : Heap) (v a : String) (i : ℕ) (x : HObj) (hx : h.find a = some x) :
     ∃ y, (h.step (.index v a i)).objs = h.objs ++ [y] ∧ y.buf = x.buf ∧ y.off = x.off + i * x.cols ∧ y.len = x.cols ∧
-      y.cfg = h.next ∧ y.st = h.next + 1 := by
+      y.stride = 1 ∧ y.cfg = h.next ∧ y.st = h.next + 1 := by
   simp only [Heap.step, hx]
-  exact ⟨_, rfl, rfl, rfl, rfl, rfl, rfl⟩
+  exact ⟨_, rfl, rfl, rfl, rfl, rfl, rfl, rfl⟩
 
-/-- **write-through**: writing element `j` of a view changes element `off + j` of the shared buffer, i.e.
-`x[i][j] = v` stores into `x`. -/
+/-- position of element `k` of a contiguous object. -/
+theorem pos_contig (x : HObj) (hs : x.stride = 1) (k : ℕ) : x.pos k = x.off + k := by
+  unfold HObj.pos; rw [hs]; omega
+
+/-- a strided slice and a column are views too: fresh config and status, **shared** buffer. -/
+theorem slice_shares_buffer (h : Heap) (v a : String) (start : ℕ) (step : ℤ) (n : ℕ) (x : HObj) (hx : h.find a = some x) :
+    ∃ y, (h.step (.slice v a start step n)).objs = h.objs ++ [y] ∧ y.buf = x.buf ∧ y.off = x.pos start ∧ y.len = n ∧
+      y.stride = x.stride * step ∧ y.cfg = h.next ∧ y.st = h.next + 1 := by
+  simp only [Heap.step, hx]
+  exact ⟨_, rfl, rfl, rfl, rfl, rfl, rfl, rfl⟩
+
+theorem column_shares_buffer (h : Heap) (v a : String) (j : ℕ) (x : HObj) (hx : h.find a = some x) :
+    ∃ y, (h.step (.column v a j)).objs = h.objs ++ [y] ∧ y.buf = x.buf ∧ y.off = x.off + j ∧ y.len = x.rows ∧
+      y.stride = (x.cols : ℤ) ∧ y.cfg = h.next ∧ y.st = h.next + 1 := by
+  simp only [Heap.step, hx]
+  exact ⟨_, rfl, rfl, rfl, rfl, rfl, rfl, rfl⟩
+
+/-- element `j` of the slice `a[start::step]` **is** element `start + j*step` of `a` (same buffer position), for
+positive and negative steps, also when `a` is itself a strided view. -/
+theorem slice_pos (x y : HObj) (start : ℕ) (step : ℤ) (j : ℕ) (hoff : y.off = x.pos start) (hst : y.stride = x.stride * step)
+    (hnn : 0 ≤ (x.off : ℤ) + start * x.stride) (hk : 0 ≤ (start : ℤ) + j * step) :
+    y.pos j = x.pos ((start : ℤ) + j * step).toNat := by
+  unfold HObj.pos at *
+  rw [hoff, hst, Int.toNat_of_nonneg hnn, Int.toNat_of_nonneg hk]
+  congr 1
+  ring
+
+/-- element `i` of the column `a[:, j]` of a row-major 2-D object **is** element `(i, j)` of `a`. -/
+theorem column_pos (x y : HObj) (i j : ℕ) (hoff : y.off = x.off + j) (hst : y.stride = (x.cols : ℤ)) (hx : x.stride = 1) :
+    y.pos i = x.pos (i * x.cols + j) := by
+  unfold HObj.pos
+  rw [hoff, hst, hx]
+  push_cast
+  congr 1
+  ring
+
+/-- **write-through**: writing element `j` of a view (row, strided slice or column) changes the element at the
+view's position `pos j` of the shared buffer, i.e. `x[i][j] = v`, `x[::2][j] = v`, `x[:, c][j] = v` store into `x`. -/
 theorem index_write_through (h : Heap) (vname : String) (j : ℕ) (val : ℚ) (y : HObj) (hy : h.find vname = some y)
-    (hlen : y.off + j < (lookup h.bufs y.buf []).length) (hmem : ∃ p ∈ h.bufs, p.1 = y.buf) :
+    (hlen : y.pos j < (lookup h.bufs y.buf []).length) (hmem : ∃ p ∈ h.bufs, p.1 = y.buf) :
     let h' := h.step (.windex vname j val)
-    (lookup h'.bufs y.buf [])[y.off + j]? =
+    (lookup h'.bufs y.buf [])[y.pos j]? =
       some ((storeConds y.fmt (h.cfgOf y) [scale val y.fmt.nfrac]).1.headD 0) := by
   intro h'
   simp only [h', Heap.step, hy]
@@ -219,6 +275,19 @@ theorem index_write_through (h : Heap) (vname : String) (j : ℕ) (val : ℚ) (y
   rw [hc]
   exact (writeWindow_get _ _ _ hlen).1
 
+/-- … and the base object reads the written code back at that element: after `v[j] = val` on a view `v` of `x`,
+element `k` of `x` with `x.pos k = v.pos j` holds the stored code. -/
+theorem write_through_read (h : Heap) (vname : String) (j k : ℕ) (val : ℚ) (x y : HObj) (hy : h.find vname = some y)
+    (hb : x.buf = y.buf) (hpos : x.pos k = y.pos j) (hk : k < x.len)
+    (hlen : y.pos j < (lookup h.bufs y.buf []).length) (hmem : ∃ p ∈ h.bufs, p.1 = y.buf) :
+    ((h.step (.windex vname j val)).codes x)[k]? =
+      some ((storeConds y.fmt (h.cfgOf y) [scale val y.fmt.nfrac]).1.headD 0) := by
+  have hw := index_write_through h vname j val y hy hlen hmem
+  simp only at hw
+  unfold Heap.codes
+  rw [List.getElem?_map, List.getElem?_range hk, Option.map_some, hb, hpos, hw]
+  rfl
+
 /-! ### configuration values -/
 
 /-- the valid values of the two behavioural options; anything else is rejected (observed on the implementation
@@ -232,5 +301,12 @@ theorem config_reject : validRounding "nearest" = false ∧ validOverflow "clip"
 /-! non-vacuity: a derive-then-mutate history -/
 example : Inv (emptyHeap.run [.create "a" ⟨true, 8, 2⟩ 0 3, .deepcopy "b" "a", .setCfg "b" ⟨.ceil, .wrap⟩]) :=
   no_sharing_invariant _
+
+/-! non-vacuity of the strided views: `v = a[::-1]; v[0] = 7` writes the last element of `a`; `c = m[:, 1]; c[1] = 5`
+writes element (1, 1) of the 2×3 object `m`. -/
+example : (let h := emptyHeap.run [.create "a" ⟨true, 8, 0⟩ 0 5, .slice "v" "a" 4 (-1) 5, .windex "v" 0 7]
+    (h.find "a").map h.codes) = some [0, 0, 0, 0, 7] := by decide +kernel
+example : (let h := emptyHeap.run [.create "m" ⟨true, 8, 0⟩ 2 3, .column "c" "m" 1, .windex "c" 1 5]
+    (h.find "m").map h.codes) = some [0, 0, 0, 0, 5, 0] := by decide +kernel
 
 end Fxp.C20
